@@ -66,9 +66,12 @@ struct Case {
     busy: bool,
     /// the last symbol of the history is cut short: its k-th SPI write fails and the call returns the error
     fault: Option<u64>,
+    /// busy panel and a driver constructed with idle delay Some(0) (busy spinning): the wait loops take
+    /// another path through the shared helpers
+    spin: bool,
 }
 
-fn rig_for(spec: &'static Spec, busy: bool) -> Result<Rig, String> {
+fn rig_for(spec: &'static Spec, busy: bool, spin: bool) -> Result<Rig, String> {
     if !busy {
         return Ok(Rig::simple(spec));
     }
@@ -78,7 +81,7 @@ fn rig_for(spec: &'static Spec, busy: bool) -> Result<Rig, String> {
             b.busy_mode = crate::hal::BusyMode::Physical;
             b.chips[0].busy.default_d = 3;
         },
-        None,
+        if spin { Some(0) } else { None },
         false,
     ) {
         Ok(r) => {
@@ -94,10 +97,10 @@ pub fn probe_op(spec: &Spec, k: K) -> Op {
 }
 
 /// returns Some((class, tags, detail)) when the probe after history differs from the fresh probe
-fn eval(spec: &'static Spec, syms: &[Sym], h: &[usize], probe: K, fresh: &Fresh, busy: bool, fault: Option<u64>, rep: Option<&mut Report>) -> Result<Option<(String, Vec<String>, String)>, String> {
+fn eval(spec: &'static Spec, syms: &[Sym], h: &[usize], probe: K, fresh: &Fresh, busy: bool, spin: bool, fault: Option<u64>, rep: Option<&mut Report>) -> Result<Option<(String, Vec<String>, String)>, String> {
     let nfull = if fault.is_some() { h.len().saturating_sub(1) } else { h.len() };
     let ops = flatten(syms, &h[..nfull]);
-    let mut rig = rig_for(spec, busy)?;
+    let mut rig = rig_for(spec, busy, spin)?;
     for o in &ops {
         let out = rig.apply(o);
         if !out.is_ok() {
@@ -187,7 +190,7 @@ pub fn run(ctx: &Ctx) -> Report {
                     continue;
                 }
                 for h in histories(spec, &syms, n) {
-                    cases.push(Case { spec, h, probe: *probe, busy: false, fault: None });
+                    cases.push(Case { spec, h, probe: *probe, busy: false, fault: None, spin: false });
                 }
             }
             // the same short histories on a panel that is really busy and drops commands while busy
@@ -197,11 +200,14 @@ pub fn run(ctx: &Ctx) -> Report {
                         if big && !ctx.tier_thorough && n == 2 && j % 4 != 0 {
                             continue;
                         }
-                        cases.push(Case { spec, h, probe: *probe, busy: true, fault: None });
+                        cases.push(Case { spec, h: h.clone(), probe: *probe, busy: true, fault: None, spin: false });
+                        if n == 1 || ctx.tier_thorough {
+                            cases.push(Case { spec, h, probe: *probe, busy: true, fault: None, spin: true });
+                        }
                     }
                 }
                 for j in 0..(if big { 20 } else { 150 }) {
-                    cases.push(Case { spec, h: random_history(spec, &syms, 3 + j % 3, &mut rng), probe: *probe, busy: true, fault: None });
+                    cases.push(Case { spec, h: random_history(spec, &syms, 3 + j % 3, &mut rng), probe: *probe, busy: true, fault: None, spin: false });
                 }
             }
             // (Histories whose last call was cut short by an SPI error were tried and dropped: after an error the
@@ -212,28 +218,28 @@ pub fn run(ctx: &Ctx) -> Report {
                 let (n3, nlong) = if big { (60, 30) } else if small { (600, 300) } else { (250, 120) };
                 let share = if *probe == K::UpdateFrame { 1 } else { 4 };
                 for _ in 0..n3 / share {
-                    cases.push(Case { spec, h: random_history(spec, &syms, 3, &mut rng), probe: *probe, busy: false, fault: None });
+                    cases.push(Case { spec, h: random_history(spec, &syms, 3, &mut rng), probe: *probe, busy: false, fault: None, spin: false });
                 }
                 for i in 0..nlong / share {
-                    cases.push(Case { spec, h: random_history(spec, &syms, 4 + i % 3, &mut rng), probe: *probe, busy: false, fault: None });
+                    cases.push(Case { spec, h: random_history(spec, &syms, 4 + i % 3, &mut rng), probe: *probe, busy: false, fault: None, spin: false });
                 }
             }
             if ctx.tier_thorough && *probe == K::UpdateFrame {
                 // length 4: exhaustive on the small panels (<= 128 x 296 / 200 x 200), seeded elsewhere
                 if small {
                     for h in histories(spec, &syms, 4) {
-                        cases.push(Case { spec, h, probe: *probe, busy: false, fault: None });
+                        cases.push(Case { spec, h, probe: *probe, busy: false, fault: None, spin: false });
                     }
                 } else {
                     let n4 = if big { 2000 } else { 20000 };
                     for _ in 0..n4 {
-                        cases.push(Case { spec, h: random_history(spec, &syms, 4, &mut rng), probe: *probe, busy: false, fault: None });
+                        cases.push(Case { spec, h: random_history(spec, &syms, 4, &mut rng), probe: *probe, busy: false, fault: None, spin: false });
                     }
                 }
                 // long random walks (5..=10 symbols)
                 let nl = if big { 500 } else { 5000 };
                 for i in 0..nl {
-                    cases.push(Case { spec, h: random_history(spec, &syms, 5 + i % 6, &mut rng), probe: *probe, busy: false, fault: None });
+                    cases.push(Case { spec, h: random_history(spec, &syms, 5 + i % 6, &mut rng), probe: *probe, busy: false, fault: None, spin: false });
                 }
             }
         }
@@ -255,7 +261,7 @@ pub fn run(ctx: &Ctx) -> Report {
         let fr = &fresh[&(spec as *const Spec as usize, c.probe)];
         rep.eval(spec.name);
         let ops = flatten(&syms, &c.h);
-        match eval(spec, &syms, &c.h, c.probe, fr, c.busy, c.fault, Some(rep)) {
+        match eval(spec, &syms, &c.h, c.probe, fr, c.busy, c.spin, c.fault, Some(rep)) {
             Err(e) => {
                 // an operation of the history itself failed: owned by another property
                 rep.count("histories_with_failing_op", 1);
@@ -268,15 +274,15 @@ pub fn run(ctx: &Ctx) -> Report {
                 }
             }
             Ok(Some((class, tags, detail))) => {
-                rep.nontrivial(hash_str(&format!("{}|{}|{}", spec.name, c.probe.name(), ops_short(&ops))));
+                rep.nontrivial(hash_str(&format!("{}|{}|{}|{}", spec.name, c.probe.name(), ops_short(&ops), c.spin)));
                 let sig0 = format!("{}|{}", class, tags.join(","));
-                let min = minimize_history(&c.h, &sig0, &|t: &[usize]| match eval(spec, &syms, t, c.probe, fr, c.busy, if c.fault.is_some() && t.last() != c.h.last() { None } else { c.fault }, None) {
+                let min = minimize_history(&c.h, &sig0, &|t: &[usize]| match eval(spec, &syms, t, c.probe, fr, c.busy, c.spin, if c.fault.is_some() && t.last() != c.h.last() { None } else { c.fault }, None) {
                     Ok(Some((cl, tg, _))) => Some(format!("{}|{}", cl, tg.join(","))),
                     _ => None,
                 });
                 if c.busy {
                     // only what the same (minimal) history on an always-idle panel does not show
-                    if let Ok(Some((cl, tg, _))) = eval(spec, &syms, &min, c.probe, fr, false, c.fault, None) {
+                    if let Ok(Some((cl, tg, _))) = eval(spec, &syms, &min, c.probe, fr, false, false, c.fault, None) {
                         if format!("{}|{}", cl, tg.join(",")) == sig0 {
                             return;
                         }
@@ -287,9 +293,17 @@ pub fn run(ctx: &Ctx) -> Report {
                 if c.busy {
                     tags.push("panel-busy".into());
                 }
+                if c.spin {
+                    // only when the default idle delay does not show it
+                    let with_delay = eval(spec, &syms, &min, c.probe, fr, true, false, c.fault, None).ok().flatten().map(|(cl, tg, _)| format!("{}|{}", cl, tg.join(",")) == sig0).unwrap_or(false);
+                    if with_delay {
+                        return;
+                    }
+                    tags.push("idle_delay=0".into());
+                }
                 if c.fault.is_some() {
                     // only what the same history without the fault does not show
-                    if let Ok(Some((cl, tg, _))) = eval(spec, &syms, &c.h, c.probe, fr, c.busy, None, None) {
+                    if let Ok(Some((cl, tg, _))) = eval(spec, &syms, &c.h, c.probe, fr, c.busy, c.spin, None, None) {
                         if format!("{}|{}", cl, tg.join(",")) == sig0 {
                             return;
                         }
